@@ -333,6 +333,28 @@ def public_case(nap, q, s, ep):
         guard("TsGroup.value_from", grp, {"before": "Tsd_float", "closest": "TsdFrame", "after": "TsdTensor"}[mode], mode)
     for name in isrc:
         guard("interpolate", interp, name)
+
+    # self lookup (theorem C06_self_lookup): a query that IS a source timestamp gets the source row AT that timestamp, in every mode
+    def selfq(name, b, mode):
+        sub = s[::2]
+        r = nap.Ts(G.arr(sub)).value_from(b, epo, mode=mode)
+        want = [x for x in sub if G.mem(x, ep)]
+        inp = dict(base, mode=mode, source=name, queries=sub)
+        if [C.to_ns(x) for x in r.t] != want:
+            return {"key": {"op": "value_from", "part": "self_times", "source": name}, "what": "self lookup: result timestamps are not the source's own instants lying in ep", "input": inp}
+        rows = np.asarray(r.values).reshape(len(r), -1) if len(r) else []
+        for row, x in zip(rows, want):
+            j = _decode(row)
+            if j is None or j == -1 or not (0 <= j < n) or s[j] != x:
+                return {"key": {"op": "value_from", "part": "self_row", "source": name, "mode": mode},
+                        "what": "self lookup: a query equal to a source timestamp did not get the source row at that timestamp", "input": inp, "x": x,
+                        "impl": np.asarray(row).tolist()}
+        return None
+
+    if len(s) > 0:
+        for mode in MODES:
+            for name in ("Tsd_int", "TsdFrame", "TsdTensor"):
+                guard("value_from", selfq, name, srcs[name], mode)
     return V
 
 
